@@ -11,7 +11,8 @@ For well-formed, plain entries (the hypotheses of the C05 round trip) the text `
   entries separated by exactly one empty line).
 
 `wfEntry` already gives `datesOK` (`wfEntry_datesOK`), `AccountOK` of every posting (`wfPosting_accountOK`) and — except
-for the transaction code and lot notes, in which `wfEntry` tolerates a line feed — `entryNoLF` (`wfEntry_entryNoLF`).
+for lot notes, in which `wfEntry` tolerates a line feed (the transaction code must be closed on its line, so `wfEntry`
+admits no line feed there) — `entryNoLF` (`wfEntry_entryNoLF`).
 -/
 set_option linter.unusedSimpArgs false
 
@@ -115,13 +116,11 @@ theorem wfExchange_nlf {x : Exchange} (h : Unparse.wfExchange x = true) : exchan
   | total v => exact wfVExpr_nlf v h
   | rate v => exact wfVExpr_nlf v h
 
-/-- the fields in which `wfEntry` tolerates a line feed: the transaction code (anything but `)`) and lot notes (anything
-but `(`, `)`, `@`) — the parser reads them up to the closing parenthesis, across line ends -/
-def codeNoteNoLF : Entry → Bool
+/-- the one field in which `wfEntry` tolerates a line feed: lot notes (anything but `(`, `)`, `@`) — the parser reads them up
+to the closing parenthesis, across line ends.  (The transaction code is no such field: `paren_str` must close on its line,
+and `wfCode` excludes CR and LF.) -/
+def lotNoteNoLF : Entry → Bool
   | .txn t =>
-    (match t.code with
-      | some c => !c.toList.contains '\n'
-      | none => true) &&
     t.posts.all fun p =>
       match p.amount with
       | some a => (match a.lot.note with
@@ -165,13 +164,13 @@ theorem wfPosting_nlf {p : Posting} (h : Unparse.wfPosting p = true)
   · intro m hm
     exact wfMetadata_nlf (List.all_eq_true.mp hmeta m hm)
 
-/-- a well-formed entry whose transaction code and lot notes hold no line feed has no line feed in any single-line field -/
-theorem wfEntry_entryNoLF {e : Entry} (h : Unparse.wfEntry e = true) (hc : codeNoteNoLF e = true) : entryNoLF e := by
+/-- a well-formed entry whose lot notes hold no line feed has no line feed in any single-line field -/
+theorem wfEntry_entryNoLF {e : Entry} (h : Unparse.wfEntry e = true) (hc : lotNoteNoLF e = true) : entryNoLF e := by
   cases e with
   | txn t =>
     simp only [Unparse.wfEntry, Unparse.wfTransaction, Bool.and_eq_true] at h
-    obtain ⟨⟨⟨⟨_, _⟩, hpay⟩, hmeta⟩, hposts⟩ := h
-    simp only [codeNoteNoLF, Bool.and_eq_true] at hc
+    obtain ⟨⟨⟨⟨_, hcodewf⟩, hpay⟩, hmeta⟩, hposts⟩ := h
+    simp only [lotNoteNoLF] at hc
     refine ⟨?_, ?_, ?_, ?_⟩
     · intro hm
       simp only [Unparse.wfPayee, Bool.and_eq_true] at hpay
@@ -180,16 +179,17 @@ theorem wfEntry_entryNoLF {e : Entry} (h : Unparse.wfEntry e = true) (hc : codeN
     · cases hcode : t.code with
       | none => trivial
       | some c =>
-        have := hc.1
-        rw [hcode] at this
+        rw [hcode] at hcodewf
         show '\n' ∉ c.toList
-        simpa using this
+        intro hm
+        have := List.all_eq_true.mp hcodewf '\n' hm
+        simp [Parse.isParenStrStop] at this
     · intro m hm
       exact wfMetadata_nlf (List.all_eq_true.mp hmeta m hm)
     · intro p hp
       refine wfPosting_nlf (List.all_eq_true.mp hposts p hp) ?_
       intro a ha n hn
-      have := List.all_eq_true.mp hc.2 p hp
+      have := List.all_eq_true.mp hc p hp
       rw [ha] at this
       simp only [hn] at this
       simpa using this
@@ -276,7 +276,7 @@ theorem C05_entry_for_Print (cx : Ctx) (h : NumIs cx Unparse.noPrec) (hc : Clear
 
 /-! ## round trip and layout of the same text -/
 
-/-- **C05 + C19 on one text.**  For well-formed plain entries whose transaction codes and lot notes hold no line feed, the
+/-- **C05 + C19 on one text.**  For well-formed plain entries whose lot notes hold no line feed, the
 text `t = Unparse.formatEntries w es` (`w` = sum of per-character widths `cx.w`, any `cx.w` satisfying `LayoutW`):
 (1) parses back to `es` and is a fixed point of `format` (C05); (2) is the text of the C19 printer model;
 (3) consists, entry by entry, of the entry's lines — at least one, none empty — followed by exactly one empty line
@@ -285,7 +285,7 @@ text `t = Unparse.formatEntries w es` (`w` = sum of per-character widths `cx.w`,
 balance follows —, and the rest (C19_gap). -/
 theorem C05_C19_format (cx : Ctx) (h : NumIs cx Unparse.noPrec) (hw : LayoutW cx.w) (es : List Entry)
     (hwf : ∀ e ∈ es, Unparse.wfEntry e = true) (hpl : ∀ e ∈ es, C05.plainEntry e = true)
-    (hnl : ∀ e ∈ es, codeNoteNoLF e = true) :
+    (hnl : ∀ e ∈ es, lotNoteNoLF e = true) :
     (Parse.parseEntries (Unparse.formatEntries (strWidth cx.w) es) = .ok es
       ∧ Unparse.format (strWidth cx.w) (Unparse.formatEntries (strWidth cx.w) es)
           = .ok (Unparse.formatEntries (strWidth cx.w) es))
@@ -343,11 +343,26 @@ private theorem exEs_plain : ∀ e ∈ exEs, C05.plainEntry e = true := by
     exact Unparse.exTxn_plain v (by simpa [Unparse.exprsOfEntry] using hv)
   all_goals decide +kernel
 
-example : ∀ e ∈ exEs, codeNoteNoLF e = true := by decide +kernel
+example : ∀ e ∈ exEs, lotNoteNoLF e = true := by decide +kernel
 example : Parse.parseEntries (Print.formatEntries (fun _ => 0) exEs) = .ok exEs := C05_for_Print_std exEs exEs_wf exEs_plain
 example : linesOf (Unparse.formatEntries (strWidth widthCjk) exEs)
     = exEs.flatMap (fun e => linesOf (Unparse.printEntry (strWidth widthCjk) e) ++ [[]]) :=
   (C05_C19_format (Ctx.std (fun _ => 0)) (std_numIs _) layoutW_widthCjk exEs exEs_wf exEs_plain (by decide +kernel)).2.2.1.1
+
+/-- a posting whose lot note holds a line feed: `    A  1 USD (a⏎b)` -/
+def exLotLF : Entry :=
+  .txn { date := ⟨2024, 1, 1⟩, payee := "x",
+         posts := [{ account := "A", amount := some { amount := .amt ⟨false, 1, 0, none⟩ "USD", lot := { note := some "a\nb" } } }] }
+
+/-- the remaining side condition is needed: `wfEntry` (and `plainEntry`) do not imply `lotNoteNoLF` — a lot note may run
+across lines and is read back — and without it `entryNoLF` fails.  (For the transaction code no such condition is left:
+`wfCode` excludes the line feed.) -/
+theorem lotNoteNoLF_needed :
+    Unparse.wfEntry exLotLF = true ∧ C05.plainEntry exLotLF = true ∧ lotNoteNoLF exLotLF = false ∧ ¬ entryNoLF exLotLF := by
+  refine ⟨by unfold exLotLF; wf_decide, by decide +kernel, by decide +kernel, ?_⟩
+  intro h
+  have hp := h.2.2.2 _ (List.mem_singleton_self _)
+  exact hp.2.1.2.2.2 (by decide)
 
 end Examples
 
